@@ -13,6 +13,8 @@ def run(tier, seed):
              'closure of the currently asserted constraints (negated ones included), no undecided constraint is decided by the '
              'distances, every learnt clause holds in every model, false answers require a negative cycle; '
              'distinct_nontrivial = distinct executions that assume at least one distance literal',
+        models=[('MC_DiffLogicImpl', 'MC_DiffLogicImpl_quick.cfg', 'MC_DiffLogicImpl.cfg',
+                 'implementation-shaped model of idl_theory (incremental update, predecessors, enforcing constraints, first-write-wins undo layers): DistExact, ConflictIffNegCycle, ExplanationsValid, PopRestores* over all assert / negate / push / pop histories', None)],
         assumptions=['at most 6 theory atoms per execution'])
 
 
